@@ -116,6 +116,9 @@ func UnpackLayer(dest string, layer io.Reader, options *TarOptions) (size int64,
 
 		if strings.HasPrefix(base, WhiteoutPrefix) {
 			dir := filepath.Dir(path)
+			if !isWithin(dest, dir) {
+				return 0, breakoutError(fmt.Errorf("%q is outside of %q", hdr.Name, dest))
+			}
 			if base == WhiteoutOpaqueDir {
 				_, err := os.Lstat(dir)
 				if err != nil {
@@ -142,6 +145,9 @@ func UnpackLayer(dest string, layer io.Reader, options *TarOptions) (size int64,
 			} else {
 				originalBase := base[len(WhiteoutPrefix):]
 				originalPath := filepath.Join(dir, originalBase)
+				if !isWithin(dest, originalPath) {
+					return 0, breakoutError(fmt.Errorf("%q is outside of %q", hdr.Name, dest))
+				}
 				if err := os.RemoveAll(originalPath); err != nil {
 					return 0, err
 				}
